@@ -9,6 +9,7 @@ A unit template (verus/units/<unit>.rs) is a Verus source file with directive li
   <contract clauses, verbatim>
   //@sub <<<anchor>>> ==> <<<replacement>>>      anchored rewrite (exactly one match, whitespace-flexible)
   //@suball <<<anchor>>> ==> <<<replacement>>>   same, every match (>= 1)
+  //@subany <<<anchor>>> ==> <<<replacement>>>   same, every match (>= 0)
   //@exit CODE <spec-expr>                        assert <spec-expr> before each verif_exit(CODE) in this fn
   //@dispatch TABLE                               R9: replace `..TABLE[idx](a, b)` with a generated match
   //@end
@@ -263,6 +264,8 @@ class Gen:
         hits = list(re.finditer(pat, text))
         mask = rsx.code_mask(text)
         hits = [h for h in hits if mask[h.start()]]
+        if not hits and allow_many == 'any':
+            return text
         if not hits or (len(hits) != 1 and not allow_many):
             raise ExtractError('anchor matched %d times in %s: %r' % (len(hits), where, anchor[:80]))
         out = []
@@ -642,8 +645,13 @@ class Gen:
             s = ln.strip()
             if s.startswith('//@sub') or s.startswith('//@suball') or s.startswith('//@sigsub'):
                 many = s.startswith('//@suball')
+                # //@subany: every match, and no match at all is fine too (the expression may live in a helper that R17 inlines
+                # in a second pass; what is left unrewritten stops the engine, it cannot verify by accident)
+                anyc = s.startswith('//@subany')
+                if anyc:
+                    many = 'any'
                 is_sig = s.startswith('//@sigsub')
-                rest = s[len('//@suball' if many else ('//@sigsub' if is_sig else '//@sub')):]
+                rest = s[len('//@subany' if anyc else ('//@suball' if many else ('//@sigsub' if is_sig else '//@sub'))):]
                 # may span several lines until the closing >>> of the replacement
                 buf = rest
                 while buf.count('<<<') < 2 or buf.count('>>>') < 2:
@@ -769,6 +777,9 @@ class Gen:
         if 'ext' in kv:
             head = '    #[verifier::external_body]\n'
             self.bump('R8.external_body')
+            if 'nobody' in kv:
+                # trusted contract on the real signature; the body (str / iterator code) is not needed even for type checking
+                body2 = '{ unimplemented!() }'
         for a in fn_attrs:
             head += '    ' + a + '\n'
         gen_start = len(self.out_lines) + 1
@@ -839,7 +850,7 @@ def parse_args(s):
         m = re.match(r'^([a-z_]+)=(.*)$', t)
         if m and len(args) >= 3:
             kv[m.group(1)] = m.group(2)
-        elif t in ('ext', 'nomacro', 'assumed') and len(args) >= 3:
+        elif t in ('ext', 'nomacro', 'assumed', 'nobody') and len(args) >= 3:
             kv[t] = '1'
         else:
             args.append(t)
